@@ -59,13 +59,18 @@ def _load(fn, errors_of):
 
 
 def drive_case(case):
+    if "_pydoc" in case:  # a document harvested from the repository's own tests, already a Python object
+        return _drive(case, case["_pydoc"])
+    return _drive(case, to_py(case["doc"]))
+
+
+def _drive(case, doc):
     import copy
     from sigma.rule import SigmaRule
     from sigma.correlations import SigmaCorrelationRule
     from sigma.filters import SigmaFilter
     from sigma.collection import SigmaCollection
 
-    doc = to_py(case["doc"])
     o = {"id": case["id"], "kind": case["kind"], "mut": case["mut"]}
 
     def coll_errors(c):
@@ -103,8 +108,18 @@ def run(tier: str, seed: int) -> int:
     chk.model_check("MC_Loader")
     cases = chk.generate("Gen_C07", shards=[1, 2, 3, 4, 5, 6])
     obs = drive("harness.props.c07", "drive_case", cases)
+    # plus every document the repository's own test suite hands to the loaders
+    from ..harvest import harvest
+
+    hv = harvest({"doc"})["doc"]
+    hobs = [drive_case({"id": 8_000_000 + i, "kind": h["cls"], "mut": "harvested", "_pydoc": h["doc"]}) for i, h in enumerate(hv) if isinstance(h["doc"], dict)]
+    chk.coverage["harvested_from_repository_tests"] = len(hobs)
+    obs += hobs
     docs = {o["id"]: o.pop("_doc") for o in obs}
     verdicts = chk.judge("Judge_C07", obs)
+    from .. import corrupt as _corrupt
+
+    chk.binding_selftest("Judge_C07", obs, verdicts, _corrupt.c07)
 
     def pretty(o):
         def res(r):
@@ -114,7 +129,7 @@ def run(tier: str, seed: int) -> int:
                 "collection_strict": res(o["coll_strict"]), "collection_collect": res(o["coll_collect"])}
 
     by_id = {o["id"]: pretty(o) for o in obs}
-    chk.absorb(verdicts, by_id, {c["id"]: c for c in cases})
+    chk.absorb(verdicts, by_id, {c["id"]: c for c in cases} | {o["id"]: {"id": o["id"], "harvested": docs.get(o["id"], "")} for o in hobs})
     invalid = sum(1 for o in obs if not o["direct_strict"]["ok"])
     samples = [by_id[o["id"]] for o in obs[:: max(1, len(obs) // 4)]][:4]
     return chk.finish(
